@@ -441,6 +441,37 @@ def direct_variants(rng, drv):
     return out
 
 
+def csv_threshold_variants(rng, drv, k):
+    """jsontocsv on served responses whose lowest-SNR metric is rewritten to the margin-inclusive threshold of the
+    selected mode and to one hundredth above / below it.  Returns [(response, csv row)]"""
+    import gnpy.topology.request as rqm
+    eq = drv['objects'][3]
+    e = eqpt_variants()[k]
+    out = []
+    served = [(o, r) for o, r in zip(drv['obs'], drv['responses']) if r is not None and o['block'] is None]
+    if not served:
+        return out
+    o, resp = rng.choice(served)
+    try:
+        md = next(m for t in e['Transceiver'] if t['type_variety'] == o['tsp'] for m in t['mode'] if m['format'] == o['mode'])
+    except StopIteration:
+        return out
+    thr = md['OSNR'] + e['SI'][0]['sys_margins']
+    for delta in (0, 0.01, -0.01):
+        r2 = copy.deepcopy(resp)
+        for ent in r2['path-properties']['path-metric']:
+            if ent['metric-type'] == 'lowest_SNR-0.1nm':
+                ent['accumulative-value'] = round(thr + delta, 2) if delta else thr
+        try:
+            f = io.StringIO()
+            rqm.jsontocsv({'response': [r2]}, eq, f)
+            row = list(csv.DictReader(io.StringIO(f.getvalue())))[0]
+        except Exception as ex:
+            row = {'__exc__': type(ex).__name__}
+        out.append((r2, row))
+    return out
+
+
 # ------------------------------------------------------------------ Coq literals
 def qdec(x):
     """the decimal that repr() prints for a float (what the JSON document contains), as an exact Q literal"""
@@ -686,7 +717,9 @@ def csv_skips(resp, k):
                    if 'transponder' in o['path-route-object'])
         md = next(m for t in e['Transceiver'] if t['type_variety'] == tsp['transponder-type']
                   for m in t['mode'] if m['format'] == tsp['transponder-mode'])
-        if isinstance(smin, (int, float)) and abs(smin - (md['OSNR'] + margin)) < 1e-9:
+        thr = md['OSNR'] + margin
+        exact = Fraction(Decimal(repr(md['OSNR']))) + Fraction(Decimal(repr(margin))) == Fraction(Decimal(repr(thr)))
+        if isinstance(smin, (int, float)) and abs(smin - thr) < 1e-9 and not (smin == thr and exact):
             skips.add('Pass?')
         bw = metric_value(pm, 'path_bandwidth')
         q = Fraction(Decimal(repr(round(bw * 1e-9, 2)))) / Fraction(Decimal(repr(round(md['bit_rate'] * 1e-9, 2))))
@@ -861,7 +894,7 @@ def run(ctx):
     if ctx.replay:
         cases = [json.load(open(ctx.replay))['case']]
     else:
-        cases += [gen_case(rng) for _ in range(ctx.scale(110, 1500))]
+        cases += [gen_case(rng) for _ in range(ctx.scale(75, 1300))]
     terms, meta = [], []
 
     def add(kind, term, *info):
@@ -915,6 +948,12 @@ def run(ctx):
                 continue
             add('resp', f'check_all {obs_lit(o)} {jlit(resp)} eqp{k} margin{k} {qlit(pdbm_of(resp))}', sc,
                 o['id'] + ' (direct ' + o['kind'] + ')', o, resp, row, csv_skips(resp, k))
+        for (r2, row) in (csv_threshold_variants(drng, drv, k) if drng.random() < 0.35 else []):
+            if has_bad_number(r2):
+                continue
+            ctx.count('csv_threshold_rows')
+            add('csvonly', f'csv_s eqp{k} margin{k} {qlit(pdbm_of(r2))} {jlit(r2)}', sc, r2['response-id'], r2, row,
+                csv_skips(r2, k))
     lines = common.coq_eval('C19', 'Prelude Model.Response Run.C19', terms, per_file=25, prelude=eqp_prelude())
     for m, line in zip(meta, lines):
         kind, sc = m[0], m[1]
@@ -944,6 +983,14 @@ def run(ctx):
                 if d:
                     ctx.corr_break('corr:Response.csv_row', f'request {rid}: CSV fields differ: {d[:4]}', sc,
                                    impl={x[0]: x[2] for x in d}, model={x[0]: x[1] for x in d})
+        elif kind == 'csvonly':
+            _, _, rid, resp, row, skips = m
+            if 'Pass?' in skips:
+                ctx.count('csv_threshold_skipped')
+            d = csv_compare(line, row, skips)
+            if d:
+                ctx.corr_break('corr:Response.csv_row', f'request {rid} (threshold variant): CSV fields differ: {d[:4]}',
+                               sc, impl={x[0]: x[2] for x in d}, model={x[0]: x[1] for x in d})
         elif kind == 'raise':
             _, _, rid, o, exc = m
             ctx.count('raises_compared')
